@@ -24,7 +24,8 @@ var_name = st.one_of(
     st.tuples(st.text(st.sampled_from(LET), min_size=1, max_size=4), st.text(st.sampled_from(LET + '0123456789_'), max_size=6)).map(lambda t: t[0] + '_' + t[1]),
     st.text(st.sampled_from(LET + '__'), min_size=1, max_size=8),
     st.sampled_from(['x', 'SUM', 'sum', 'If', 'a_1', 'A_1', '_', '__', 'total_2024', 'e', 'pi', 'True', 'true', 'Null']),
-).filter(lambda n: n not in ('TRUE', 'FALSE', 'NULL'))
+    st.sampled_from(['TRUE', 'FALSE', 'NULL']),        # the predefined names are variables like any other: a host may bind them anew
+)
 
 py_value = st.one_of(
     st.integers(-10 ** 20, 10 ** 20), st.floats(allow_nan=True, allow_infinity=True), st.text(max_size=6), st.booleans(), st.none(),
@@ -117,7 +118,8 @@ fn_name = st.one_of(
     st.sampled_from(['F', 'MY.FUNC', 'f1', 'A1', 'sum', 'Sum', 'x_1', 'my.fn.v2']),
 )
 
-arg_leaf = st.one_of(st.sampled_from(['1', '2', '3', '5', '10']).map(lambda s: ['num', s]), st.just(['dec', '0.5']), st.just(['str', 'txt', '"']),
+ERR_ARGS = [['src', '(1/0)', '#DIV/0!'], ['src', 'NA()', '#N/A'], ['src', '("q"+1)', '#VALUE!'], ['src', '(DATE(1900,1,1)-99999)', '#NUM!'], ['src', 'MATCH(9,{1,2,3},0)', '#N/A'], ['src', 'v_err', '#REF!']]
+arg_leaf = st.one_of(st.sampled_from(['1', '2', '3', '5', '10']).map(lambda s: ['num', s]), st.just(['dec', '0.5']), st.just(['str', 'txt', '"']), st.sampled_from(ERR_ARGS),
                      st.sampled_from(['v_a', 'v_b', 'TRUE', 'NULL']).map(lambda n: ['var', n]), st.just(['cell', 'B2']))
 arg_tree = gf.tree_strategy(st.one_of(st.sampled_from(['1', '2', '3', '5', '10']).map(lambda s: ['num', s]), st.just(['var', 'v_a']), st.just(['cell', 'B2'])), ops=['+', '-', '*'], max_leaves=3)
 
@@ -137,6 +139,12 @@ def fn_case(draw):
 REF_ENV = {'vars': {'v_a': 4, 'v_b': 9}, 'cells': {'B2': 6}, 'funcs': {}}
 
 
+def same_arg(got, want):
+    if isinstance(want, gf.Err):        # an argument that evaluated to an error value arrives as that error value
+        return is_xlerr(got) and str(got) == want.code
+    return same(got, want)
+
+
 def check_function(case):
     name, sites, shape = case['name'], case['sites'], case['shape']
     calls = []
@@ -146,6 +154,9 @@ def check_function(case):
         k = len(calls)
         calls.append(list(args))
         return rets(k)
+    if name.upper() in ('NA', 'MATCH', 'DATE'):
+        # the error-producing argument texts call these built-ins themselves; under a custom function of that name they would be further call sites
+        sites = [[['src', '(1/0)', '#DIV/0!'] if a[0] == 'src' else a for a in args] for args in sites]
     nodes = [['call', name, a] for a in sites]
     numeric = case['ret'] in ('int', 'float')
     if shape == 'nested' and len(nodes) >= 2:
@@ -163,7 +174,7 @@ def check_function(case):
         top = nodes[0]
         nodes = nodes[:1]
     text = gf.render(top)
-    env = Env(vars={'v_a': 4, 'v_b': 9}, cells={'B2': 6}, funcs={name: recorder})
+    env = Env(vars={'v_a': 4, 'v_b': 9, 'v_err': errors().REF}, cells={'B2': 6}, funcs={name: recorder})
     r = env.parse(text)
     d = 'function %s registered; %s ' % (name, text)
     if r['error'] is not None:
@@ -187,7 +198,7 @@ def check_function(case):
     if len(calls) != len(want_calls):
         raise Violation(d + 'called the function %d times for %d call sites' % (len(calls), len(want_calls)), len(calls), len(want_calls))
     for k, (got, want) in enumerate(zip(calls, want_calls)):
-        if len(got) != len(want) or not all(same(a, b) for a, b in zip(got, want)):
+        if len(got) != len(want) or not all(same_arg(a, b) for a, b in zip(got, want)):
             raise Violation(d + 'call %d received %r, expected %r' % (k, got, want), enc(got), enc(want))
     if not same(r['result'], want_value):
         raise Violation(d + '-> %r, expected %r (the function\'s return value)' % (r['result'], want_value), enc(r['result']), enc(want_value))
